@@ -371,3 +371,167 @@ theorem roundtripF_core (env : Env) : ∀ (f : Field) (v : PyVal) (kvs : List (S
 end
 
 end MetadorModel.Codec
+
+namespace MetadorModel.Codec
+
+/-! ## constants and omitted optionals -/
+
+theorem decodeField_congr (env : Env) (f : Field) (kvs kvs' : List (Str × Json))
+    (h : lookup (fieldName f) kvs = lookup (fieldName f) kvs') :
+    decodeField env f kvs = decodeField env f kvs' := by
+  obtain ⟨n, t, req, d⟩ := f
+  simp only [fieldName] at h
+  simp only [decodeField, h]
+
+theorem decodeFields_congr (env : Env) : ∀ (fs : List Field) (kvs kvs' : List (Str × Json)),
+    (∀ f ∈ fs, lookup (fieldName f) kvs = lookup (fieldName f) kvs') →
+    decodeFields env fs kvs = decodeFields env fs kvs'
+  | [], _, _, _ => by simp [decodeFields]
+  | f :: fs, kvs, kvs', h => by
+    have h1 := decodeField_congr env f kvs kvs' (h f (by simp))
+    have h2 := decodeFields_congr env fs kvs kvs' (fun g hg => h g (by simp [hg]))
+    simp only [decodeFields, h1, h2]
+
+theorem decodeField_key (env : Env) (f : Field) (kvs : List (Str × Json)) (p : Str × PyVal)
+    (h : decodeField env f kvs = .ok p) : p.1 = fieldName f := by
+  obtain ⟨n, t, req, d⟩ := f
+  simp only [decodeField, fieldName] at h ⊢
+  split at h
+  · cases hd : decode env t ‹Json› with
+    | ok v => simp [hd, mapOk] at h; rw [← h]
+    | error e => simp [hd, mapOk] at h
+  · split at h
+    · cases h
+    · split at h
+      · simp at h; rw [← h]
+      · cases hd : decode env t ‹Json› with
+        | ok v => simp [hd, mapOk] at h; rw [← h]
+        | error e => simp [hd, mapOk] at h
+
+theorem decodeFields_keys (env : Env) : ∀ (fs : List Field) (kvs : List (Str × Json))
+    (fvs : List (Str × PyVal)), decodeFields env fs kvs = .ok fvs → fvs.map (·.1) = fs.map fieldName
+  | [], kvs, fvs, h => by
+    simp [decodeFields] at h
+    simp [← h]
+  | f :: fs, kvs, fvs, h => by
+    simp only [decodeFields] at h
+    cases h1 : decodeField env f kvs with
+    | error e =>
+      rw [h1] at h
+      cases h2 : decodeFields env fs kvs with
+      | ok r => rw [h2] at h; cases h
+      | error e' => rw [h2] at h; cases e' <;> cases h
+    | ok p =>
+      rw [h1] at h
+      cases h2 : decodeFields env fs kvs with
+      | error e' => rw [h2] at h; cases e' <;> cases h
+      | ok r =>
+        rw [h2] at h
+        simp at h
+        subst h
+        simp [decodeField_key env f kvs p h1, decodeFields_keys env fs kvs r h2]
+
+theorem lookup_setKey_ne (k n : Str) (x : Json) (l : List (Str × Json)) (h : n ≠ k) :
+    lookup n (setKey k x l) = lookup n l := by
+  induction l with
+  | nil => simp [setKey, lookup, h]
+  | cons p l ih =>
+    obtain ⟨k', v⟩ := p
+    by_cases hk : k = k'
+    · subst hk
+      simp [setKey, lookup, h]
+    · by_cases hn : n = k'
+      · simp [setKey, hk, lookup, hn]
+      · simp [setKey, hk, lookup, hn, ih]
+
+theorem filter_setKey (P : Str × Json → Bool) (k : Str) (x : Json) (l : List (Str × Json))
+    (h : ∀ y, P (k, y) = false) : (setKey k x l).filter P = l.filter P := by
+  induction l with
+  | nil => simp [setKey, h]
+  | cons p l ih =>
+    obtain ⟨k', v⟩ := p
+    by_cases hk : k = k'
+    · subst hk
+      simp [setKey, List.filter_cons, h]
+    · simp [setKey, hk, List.filter_cons, ih]
+
+end MetadorModel.Codec
+
+namespace MetadorModel.Codec
+
+/-! ## the serialised form of a valid schema instance (used by C13) -/
+
+theorem valid_model_inv (env : Env) (n : Str) (ex : Extra) (fs : List Field) (cs : List (Str × Json))
+    (v : PyVal) (h : Valid env (.model n ex fs cs) v) :
+    ∃ fvs xs, v = .obj n fvs cs xs ∧ ValidFs env fs fvs ∧ ExtrasOk ex fs cs xs
+      ∧ (fs.map fieldName).Nodup ∧ (∀ f ∈ fs, hasKey (fieldName f) cs = false)
+      ∧ (∀ p ∈ cs, isNull p.2 = false) := by
+  simpa only [Valid] using h
+
+theorem extras_filter_self (ex : Extra) (fs : List Field) (cs xs : List (Str × Json))
+    (hxs : ExtrasOk ex fs cs xs) : xs.filter (fun p => !isNull p.2) = xs := by
+  cases ex with
+  | allow =>
+    apply List.filter_eq_self.mpr
+    intro q hq
+    simp [(hxs q hq).1]
+  | ignore => simp only [ExtrasOk] at hxs; subst hxs; rfl
+  | forbid => simp only [ExtrasOk] at hxs; subst hxs; rfl
+
+theorem extras_key_ne (ex : Extra) (fs : List Field) (cs xs : List (Str × Json))
+    (hxs : ExtrasOk ex fs cs xs) : ∀ f ∈ fs, ∀ q ∈ xs, q.1 ≠ fieldName f := by
+  intro f hf q hq e
+  cases ex with
+  | allow =>
+    have := (hxs q hq).2.1
+    rw [List.any_eq_false] at this
+    have := this f hf
+    simp [e] at this
+  | ignore => simp only [ExtrasOk] at hxs; subst hxs; simp at hq
+  | forbid => simp only [ExtrasOk] at hxs; subst hxs; simp at hq
+
+/-- what `lookup` finds in the dump of a valid instance: a declared field's encoding, or
+nothing when the value is `none` -/
+theorem dump_lookup (env : Env) (ex : Extra) (fs : List Field) (cs xs : List (Str × Json))
+    (fvs : List (Str × PyVal)) (hfs : ValidFs env fs fvs) (hxs : ExtrasOk ex fs cs xs)
+    (hnd : (fs.map fieldName).Nodup) (hdisj : ∀ f ∈ fs, hasKey (fieldName f) cs = false) :
+    ∀ p ∈ fvs, lookup p.1 (encodeFields fvs ++ cs ++ xs) = encOpt p.2 := by
+  have hkeys := ValidFs_keys env fs fvs hfs
+  intro p hp
+  have h1 := lookup_encodeFields fvs (by rw [hkeys]; exact hnd) p hp
+  rw [List.append_assoc, lookup_append, h1]
+  cases hv : encOpt p.2 with
+  | some j => rfl
+  | none =>
+    have hmem : p.1 ∈ fs.map fieldName := by
+      rw [← hkeys]; exact List.mem_map.mpr ⟨p, hp, rfl⟩
+    obtain ⟨f, hf, hfn⟩ := List.mem_map.mp hmem
+    have hc : lookup p.1 cs = none := lookup_none_of_hasKey _ _ (by rw [← hfn]; exact hdisj f hf)
+    have hx : lookup p.1 xs = none := by
+      apply lookup_none_of_notin
+      intro q hq e
+      exact extras_key_ne ex fs cs xs hxs f hf q hq (by rw [e, hfn])
+    simp [lookup_append, hc, hx]
+
+/-- the value stored for a declared field -/
+theorem ValidFs_mem (env : Env) : ∀ (fs : List Field) (fvs : List (Str × PyVal)), ValidFs env fs fvs →
+    ∀ f ∈ fs, ∃ v, (fieldName f, v) ∈ fvs ∧ ValidF env f v
+  | [], _, _, f, hf => by simp at hf
+  | g :: fs, fvs, h, f, hf => by
+    simp only [ValidFs] at h
+    obtain ⟨v, rest, rfl, hv, hr⟩ := h
+    simp only [List.mem_cons] at hf
+    rcases hf with rfl | hf
+    · exact ⟨v, by simp, hv⟩
+    · obtain ⟨w, hw, hvw⟩ := ValidFs_mem env fs rest hr f hf
+      exact ⟨w, by simp [hw], hvw⟩
+
+theorem decodeFields_ok_of_all (env : Env) : ∀ (fs : List Field) (kvs : List (Str × Json)),
+    (∀ f ∈ fs, ∃ r, decodeField env f kvs = .ok r) → ∃ fvs, decodeFields env fs kvs = .ok fvs
+  | [], _, _ => ⟨[], by simp [decodeFields]⟩
+  | f :: fs, kvs, h => by
+    obtain ⟨r, hr⟩ := h f (by simp)
+    obtain ⟨rs, hrs⟩ := decodeFields_ok_of_all env fs kvs (fun g hg => h g (by simp [hg]))
+    exact ⟨r :: rs, by simp [decodeFields, hr, hrs]⟩
+
+end MetadorModel.Codec
